@@ -23,6 +23,8 @@ pub enum RecvKind {
     Nested,
     Thin,
     ThinView,
+    /// `TooDeeViewMut::new(cols, rows, slice)` over a slice that is `m[3]` rows longer than needed
+    SliceMut,
 }
 
 /// How the receiver is embedded: margins [left, top, right, bottom] of the outer window in the
@@ -49,8 +51,11 @@ impl Recv {
     pub fn nested(m: [u8; 4], m2: [u8; 4]) -> Recv {
         Recv { kind: RecvKind::Nested, m, m2 }
     }
+    pub fn slice_mut(slack_rows: u8) -> Recv {
+        Recv { kind: RecvKind::SliceMut, m: [0, 0, 0, slack_rows], m2: [0; 4] }
+    }
     pub fn is_view(&self) -> bool {
-        matches!(self.kind, RecvKind::ViewMut | RecvKind::Nested | RecvKind::ThinView)
+        matches!(self.kind, RecvKind::ViewMut | RecvKind::Nested | RecvKind::ThinView | RecvKind::SliceMut)
     }
 }
 
@@ -75,6 +80,13 @@ pub fn layout(cols: usize, rows: usize, recv: &Recv) -> Layout {
     let (ec, er) = if cols == 0 || rows == 0 { (0, 0) } else { (cols, rows) };
     match recv.kind {
         RecvKind::Owned | RecvKind::Thin => Layout { pc: ec, pr: er, s1: (0, 0), e1: (ec, er), s2: (0, 0), e2: (ec, er), o: (0, 0), c: ec, r: er },
+        RecvKind::SliceMut => {
+            // the view occupies the first ec*er elements of a buffer of ec*(er+b) elements
+            if ec == 0 {
+                return Layout { pc: 0, pr: 0, s1: (0, 0), e1: (0, 0), s2: (0, 0), e2: (0, 0), o: (0, 0), c: 0, r: 0 };
+            }
+            Layout { pc: ec, pr: er + b, s1: (0, 0), e1: (ec, er), s2: (0, 0), e2: (0, 0), o: (0, 0), c: ec, r: er }
+        }
         RecvKind::ViewMut | RecvKind::ThinView => {
             let (pc, pr) = (cols + l + r, rows + t + b);
             if pc == 0 || pr == 0 {
@@ -545,6 +557,11 @@ macro_rules! with_recv {
                 let $x = &mut v2;
                 $body
             }
+            RecvKind::SliceMut => {
+                let mut v = TooDeeViewMut::new($lay.c, $lay.r, $parent.data_mut());
+                let $x = &mut v;
+                $body
+            }
         }
     };
 }
@@ -758,6 +775,7 @@ pub fn small_margin() -> impl Strategy<Value = [u8; 4]> {
 }
 pub fn recv_any() -> impl Strategy<Value = Recv> {
     prop_oneof![
+        1 => (0u8..4).prop_map(Recv::slice_mut),
         3 => Just(Recv::owned()),
         2 => Just(Recv::thin()),
         4 => small_margin().prop_map(Recv::view),
@@ -767,6 +785,7 @@ pub fn recv_any() -> impl Strategy<Value = Recv> {
 }
 pub fn recv_view() -> impl Strategy<Value = Recv> {
     prop_oneof![
+        1 => (0u8..4).prop_map(Recv::slice_mut),
         5 => small_margin().prop_map(Recv::view),
         2 => small_margin().prop_map(Recv::thin_view),
         3 => (small_margin(), small_margin()).prop_map(|(a, b)| Recv::nested(a, b)),
@@ -815,7 +834,7 @@ pub fn sanitize(k: &mut GridCase, max: u8, views_only: bool) -> bool {
         k.cols = 0;
         k.rows = 0;
     }
-    k.line_keys.truncate(8);
+    k.line_keys.truncate(96);
     if let GOp::Sort { form, .. } = &mut k.op {
         *form %= 11;
     }
@@ -1234,19 +1253,68 @@ fn sort_strategy(by_row: bool) -> BoxedStrategy<GridCase> {
         3 => (2u8..=20, 1u8..=8),
         1 => (1u8..=2, 1u8..=3),
     ];
-    (shape, recv_any(), any::<u32>(), 2u8..=4, 0u8..6, 0u8..3, any::<u16>(), prop::bool::weighted(0.06))
-        .prop_map(move |((len, other), recv, keyseed, alphabet, f, keyfn, lfrac, bad)| {
+    (shape, recv_any(), any::<u32>(), 2u8..=4, 0u8..6, 0u8..3, any::<u16>(), prop::bool::weighted(0.06), 0u8..14)
+        .prop_map(move |((len, other), recv, keyseed, alphabet, f, keyfn, lfrac, bad, pattern)| {
             let (cols, rows) = if by_row { (len, other) } else { (other, len) };
             let form = if by_row { f } else { 6 + f % 5 };
             let dim = other as u64;
             let line = if bad { dim + (lfrac as u64 % 2) } else { (lfrac as u64 * dim) >> 16 };
-            GridCase { cols, rows, recv, keyseed, alphabet, line_keys: vec![], op: GOp::Sort { form, line, keyfn } }
+            // structured key lines (pre-sorted / reverse-sorted with ties / sorted except the last
+            // element / constant / two runs): the inputs that adaptive pre-passes special-case
+            let n = len as usize;
+            let a = alphabet.max(2) as usize;
+            let asc = |i: usize| (i * a / n.max(1)) as u8;
+            let line_keys: Vec<u8> = match pattern {
+                0 => (0..n).map(asc).collect(),
+                1 => (0..n).map(|i| asc(n - 1 - i)).collect(),
+                2 => (0..n).map(|i| if i + 1 == n { (keyseed % a as u32) as u8 } else { asc(i) }).collect(),
+                3 => (0..n).map(|i| if i + 1 == n { (keyseed % a as u32) as u8 } else { asc(n - 1 - i) }).collect(),
+                4 => vec![1; n],
+                5 => (0..n).map(|i| asc((2 * i) % n.max(1))).collect(),
+                6 => (0..n).map(|i| if i == 0 { (a - 1) as u8 } else { asc(i) }).collect(),
+                _ => vec![],
+            };
+            GridCase { cols, rows, recv, keyseed, alphabet, line_keys, op: GOp::Sort { form, line, keyfn } }
         })
         .boxed()
 }
 
+/// The same sort on an array of a zero-sized element type: only panic / no panic and the
+/// shape are observable, and both must be as for any other element type.
+fn zst_sort_companion(c: usize, r: usize, form: u8, line: usize) -> Verdict {
+    use std::cmp::Ordering;
+    let mut z: TooDee<()> = if c == 0 { TooDee::default() } else { TooDee::init(c, r, ()) };
+    let form = form % 11;
+    let dim = if form < 6 { r } else { c };
+    let res = catch(|| match form {
+        0 => z.sort_by_row(line, |_, _| Ordering::Equal),
+        1 => z.sort_by_row_key(line, |_| 0u8),
+        2 => z.sort_row_ord::<()>(line),
+        3 => z.sort_unstable_by_row(line, |_, _| Ordering::Equal),
+        4 => z.sort_unstable_by_row_key(line, |_| 0u8),
+        5 => z.sort_unstable_row_ord::<()>(line),
+        6 => z.sort_by_col(line, |_, _| Ordering::Equal),
+        7 => z.sort_by_col_key(line, |_| 0u8),
+        8 => z.sort_col_ord::<()>(line),
+        9 => z.sort_unstable_by_col(line, |_, _| Ordering::Equal),
+        _ => z.sort_unstable_by_col_key(line, |_| 0u8),
+    });
+    if line < dim {
+        ensure!(res.is_ok(), "zst/valid-panicked", "sort form {} of line {} on a {}x{} array of a zero-sized type panicked: {:?}", form, line, c, r, res);
+        ensure!(z.size() == (c, r) && z.data().len() == c * r, "zst/shape-changed", "sort form {} on a {}x{} array of a zero-sized type left size {:?}", form, c, r, z.size());
+    } else {
+        ensure!(res.is_err(), "zst/invalid-accepted", "sort form {} of the out-of-range line {} on a {}x{} array of a zero-sized type must panic but returned", form, line, c, r);
+    }
+    Ok(())
+}
+
 fn sort_execute(k: &GridCase, ctx: &mut Ctx) -> Verdict {
     let lay = layout(k.cols as usize, k.rows as usize, &k.recv);
+    if let GOp::Sort { form, line, .. } = &k.op {
+        if lay.c <= 8 && lay.r <= 8 {
+            zst_sort_companion(lay.c, lay.r, *form, (*line).min(1 << 20) as usize)?;
+        }
+    }
     let out = run(k, Focus::Op, ctx)?;
     ctx.class(&format!("{:?}", k.recv.kind));
     if !out.valid {
@@ -1388,13 +1456,13 @@ impl Prop for C04 {
     type Case = GridCase;
     const ID: &'static str = "C04";
     fn rule() -> &'static str {
-        "one valid mutating operation (indexed writes, fill, swap family, row_pair_mut, writes through rows_mut / col_mut / cells_mut incl. rev / skip / step_by, copy_from_slice, clone_from_slice, copy/clone_from_toodee, copy_within, all eleven sort variants, translate_with_wrap, flips) on a TooDeeViewMut window of a parent with distinct cells: window classes interior, touching each edge, single row / column, full, empty, nested two levels, and through a third-party wrapper; shapes up to 10x10 with margins 0..3. Oracle: (a) every parent cell outside the rectangle is bit-for-bit unchanged; (b) differential: inside equals the result of the same operation on an owned copy (unstable sorts with tied keys: validity only), and both equal the rows-of-cells model. Non-trivial = the window is smaller than its parent in at least one dimension and the operation changed at least one inside cell. Distinct = distinct case tuple."
+        "one valid mutating operation (indexed writes, fill, swap family, row_pair_mut, writes through rows_mut / col_mut / cells_mut incl. rev / skip / step_by, copy_from_slice, clone_from_slice, copy/clone_from_toodee, copy_within, all eleven sort variants, translate_with_wrap, flips) on a TooDeeViewMut window of a parent with distinct cells: window classes interior, touching each edge, single row / column, full, empty, nested two levels (also a full-width inner window of a strided outer one), a view built directly over a longer slice, and through a third-party wrapper; shapes up to 10x10 with margins 0..3. Oracle: (a) every parent cell outside the rectangle is bit-for-bit unchanged; (b) differential: inside equals the result of the same operation on an owned copy (unstable sorts with tied keys: validity only), and both equal the rows-of-cells model. Non-trivial = the window is smaller than its parent in at least one dimension and the operation changed at least one inside cell. Distinct = distinct case tuple."
     }
     fn bound(_t: Tier) -> String {
-        "exhaustive part: shapes (1..=4)^2 x 5 window embeddings x a fixed list of 40 operations".into()
+        "exhaustive part: shapes (1..=4)^2 x 7 window embeddings x a fixed list of 40 operations".into()
     }
     fn enumerate(_tier: Tier, emit: &mut dyn FnMut(GridCase)) {
-        let recvs = [Recv::view([1, 1, 1, 1]), Recv::view([0, 0, 2, 0]), Recv::view([2, 1, 0, 0]), Recv::thin_view([1, 2, 1, 0]), Recv::nested([1, 0, 1, 1], [0, 1, 1, 0])];
+        let recvs = [Recv::view([1, 1, 1, 1]), Recv::view([0, 0, 2, 0]), Recv::view([2, 1, 0, 0]), Recv::thin_view([1, 2, 1, 0]), Recv::nested([1, 0, 1, 1], [0, 1, 1, 0]), Recv::slice_mut(2), Recv::nested([1, 1, 1, 1], [0, 1, 0, 1])];
         for recv in recvs {
             for cols in 1u8..=4 {
                 for rows in 1u8..=4 {
@@ -1489,6 +1557,6 @@ impl Prop for C04 {
         Ok(())
     }
     fn essential_classes() -> &'static [&'static str] {
-        &["window-interior", "window-touching-an-edge", "window-single-line", "window-empty", "Nested", "ThinView", "ViewMut", "copy_within", "rows_mut", "col_mut", "cells_mut", "sort_unstable_by_col_key", "translate_with_wrap", "swap_rows", "row_pair_mut"]
+        &["SliceMut", "window-interior", "window-touching-an-edge", "window-single-line", "window-empty", "Nested", "ThinView", "ViewMut", "copy_within", "rows_mut", "col_mut", "cells_mut", "sort_unstable_by_col_key", "translate_with_wrap", "swap_rows", "row_pair_mut"]
     }
 }
